@@ -34,7 +34,7 @@ M1_ASSUME = [
 ]
 
 
-def m1_pipeline(prop, tier, sims, gens, ops='list', laws=False, bin=False, owned=None, level_note='', extra_cases=(), extra_cov=None):
+def m1_pipeline(prop, tier, sims, gens, ops='list', laws=False, bin=False, owned=None, level_note='', extra_cases=(), extra_cov=None, extra_verdict=None):
     """sims: list of dict(tag,num,depth,admin,ingr); gens: list of (profile, n).
     owned: set of property ids whose mismatches this check reports (default {prop})."""
     t0 = time.time()
@@ -94,6 +94,8 @@ def m1_pipeline(prop, tier, sims, gens, ops='list', laws=False, bin=False, owned
                   dict(property=prop, kind='m1', mismatches=mine[:10], world_event=wev, trace_event=tev, ops=ops))
         else:
             v.add('', None, signature=sigs[0])
+    if extra_verdict:
+        extra_cov = dict(extra_cov or {}, **extra_verdict(v))
     rc = v.finish()
     if other:
         print('note: mismatches owned by other properties were seen and are reported by their checks: %s' % dict(other))
@@ -137,10 +139,63 @@ def c01(tier):
 
 @check('C04')
 def c04(tier):
-    return m1_pipeline('C04', tier, ops='list,diff',
+    return m1_pipeline('C04', tier, ops='list,diff', extra_cov=diff_merge(tier), extra_verdict=lambda v: diff_merge_conformance(tier, v),
                        sims=[dict(tag='np', num=scale(tier, 250, 2000), depth=20),
                              dict(tag='adm', num=scale(tier, 100, 1000), depth=20, admin=True, maxrules=3)],
                        gens=[('np,np-out,admin,np-big', scale(tier, 900, 6000))])
+
+
+def diff_merge(tier):
+    """Design layer of C04 (DiffMerge.tla): refine -> diffMap -> group by (peer, conn1, conn2) -> merge touching ranges -> classify, as
+    pkg/netpol/diff/diff.go does it, for every pair of partitions of the address space with every assignment of connection values and
+    every choice of group representatives (Go map order). Each ingredient of the design must be necessary (refuted when dropped)."""
+    base = dict(N=5 if tier == 'thorough' else 4, KeyHasBothConns='TRUE', KeySeparated='TRUE', SecondFromOwn='TRUE', MergeTouching='TRUE')
+    inv = 'INVARIANT PointwiseExact\nINVARIANT Maximal'
+    cfg = m1.write_cfg('DiffMerge_asbuilt.cfg', base, extra=inv)
+    text, gen, dist, rc = vlib.tlc('DiffMerge', cfg, timeout=6000, tag='dm')
+    if 'is violated' in text:
+        raise Infra('DiffMerge.tla (as built): the transcribed algorithm is not point-wise exact (specification-level finding, not a verdict about the code):\n'
+                    + vlib.tlc_error_context(text))
+    if rc != 0 or vlib.has_tlc_error(text) or 'No error has been found' not in text:
+        raise Infra('DiffMerge.tla run failed:\n' + vlib.tlc_error_context(text))
+    refuted = []
+    for flag in ('KeyHasBothConns', 'KeySeparated', 'SecondFromOwn', 'MergeTouching'):
+        cfg = m1.write_cfg('DiffMerge_no%s.cfg' % flag, dict(base, N=4, **{flag: 'FALSE'}), extra=inv)
+        t2, g2, d2, rc2 = vlib.tlc('DiffMerge', cfg, timeout=900, tag='dmm' + flag)
+        if ' is violated' not in t2:
+            raise Infra('DiffMerge.tla: dropping %s is not refuted -- the invariants would be vacuous:\n%s' % (flag, vlib.tlc_error_context(t2)))
+        refuted.append(flag + '=FALSE')
+    return dict(diff_merge_design_layer='DiffMerge.tla: DisjointPeerIPMap / RefineConnListByDisjointPeers / diffMap / mergeIPblocks (group key peer;conn1;conn2, '
+                                        'MergePeerIPList, representative = first member in map order) / classification transcribed; for EVERY pair of partitions of %d addresses '
+                                        'into ranges with a connection value in {A, B, none} per range and every choice of representatives the entries are point-wise exact '
+                                        '(one covering entry of the right type carrying exactly c1 and c2) and maximal' % base['N'],
+                diff_merge_distinct_states=dist, diff_merge_exhaustive=True, diff_merge_refuted_variants=refuted)
+
+
+def diff_merge_conformance(tier, v):
+    """Binding of DiffMerge.tla to the code: the real ConnDiffFromDirPaths is run on inputs of the specification (every pair of
+    partitions of 4 addresses; thorough: a sample of the pairs over 5 addresses as well) and DiffMergeTrace.tla accepts a case iff the
+    recorded ip-block entries are exactly DiffMerge!Out (same ranges, connections, types)."""
+    runs = [(4, 0)] + ([(5, 150000)] if tier == 'thorough' else [])
+    cases = lines = 0
+    for N, sample in runs:
+        d = vlib.sub('dm-N%d' % N)
+        vlib.harness(['diffmerge', '-N', str(N), '-sample', str(sample), '-out', d, '-seed', str(vlib.seed())])
+        res = vlib.validate_traces('DiffMergeTrace', sorted(glob.glob(d + '/*.ndjson')), cfg=m1.diffmerge_trace_cfg(N))
+        lines += res['lines']
+        groups = collections.OrderedDict()
+        for (sh, mm) in res['mismatches']:
+            groups.setdefault((sh, mm['line']), []).append(mm['m'])
+        for (sh, line), ms in groups.items():
+            ev = vlib.trace_line(sh, line)
+            v.add('%s: %s' % (ms[0][0], vlib.short(ms[0][1:], 500)), dict(property='C04', kind='diffmerge', mismatches=ms[:5], case=ev))
+        for sh in res['shards']:
+            cases += sum(1 for ln in open(sh) if '"outcome":"ok"' in ln)
+    if cases == 0:
+        raise Infra('vacuous run: no DiffMerge case was analysed by the real diff')
+    return dict(diff_merge_cases_run_on_real_diff=lines, diff_merge_cases_analysed_ok=cases,
+                diff_merge_binding='every input of DiffMerge.tla over 4 addresses (36,864 pairs of partitions, alternating egress / ingress) written as two manifest directories '
+                                   'and analysed by ConnDiffFromDirPaths; accepted by DiffMergeTrace.tla iff the ip-block entries equal DiffMerge!Out exactly')
 
 
 def ip_partition(tier):
